@@ -172,7 +172,7 @@ fn main() {
         emit4(&mut out, &format!("V4_FULL_{k}"), chunk);
     }
     emit6(&mut out, "V6_QUICK", &v6_configs(false));
-    emit6(&mut out, "V6_MINI", &v6_configs(false)[..40]);
+    emit6(&mut out, "V6_MINI", &v6_configs(false)[..24]);
     let full6 = v6_configs(true);
     for (k, chunk) in full6.chunks(130).enumerate() {
         emit6(&mut out, &format!("V6_FULL_{k}"), chunk);
